@@ -9,6 +9,7 @@ import (
 	"github.com/vicanso/pike/server"
 
 	"pikemc/env"
+	"pikemc/vsched"
 )
 
 // C14 — routing picks a matching location of the best specificity class.
@@ -428,5 +429,74 @@ func init() {
 			st.States, st.Transitions, st.Nontrivial = st.Execs, st.Execs, st.Execs
 			st.NOutcomes = int(st.Execs)
 		}
+		// lookups racing a reload that shrinks / reorders the table: every answer is right for the table before or for
+		// the table after the reload
+		c.RunSched(c14ReloadVsLookup(c, "reload-vs-lookups"))
 	})
+}
+
+func c14ReloadVsLookup(c *Ctx, name string) Sched {
+	tabA := []c14Loc{{Name: "PH", Hosts: []string{"a"}, Prefixes: []string{"/a"}}, {Name: "P", Prefixes: []string{"/a"}}, {Name: "H", Hosts: []string{"a"}}, {Name: "ANY"}}
+	tabs := [][]c14Loc{
+		{{Name: "X", Hosts: []string{"zzz"}}, {Name: "Y", Prefixes: []string{"/zzz"}}},
+		{{Name: "ANY2"}, {Name: "X", Hosts: []string{"zzz"}, Prefixes: []string{"/q"}}, {Name: "H2", Hosts: []string{"a"}}},
+		{{Name: "ANY"}, {Name: "H", Hosts: []string{"a"}}, {Name: "P", Prefixes: []string{"/a"}}, {Name: "PH", Hosts: []string{"a"}, Prefixes: []string{"/a"}}},
+	}
+	names := []string{"PH", "P", "H", "ANY", "X", "Y", "ANY2", "H2"}
+	conv := func(t []c14Loc) []config.LocationConfig {
+		var lcs []config.LocationConfig
+		for _, l := range t {
+			lcs = append(lcs, config.LocationConfig{Name: l.Name, Upstream: "u", Hosts: l.Hosts, Prefixes: l.Prefixes})
+		}
+		return lcs
+	}
+	reqs := [][2]string{{"a", "/a/1"}, {"b", "/a/1"}}
+	return Sched{
+		Name:   name,
+		Bounds: vsched.Bounds{Preempt: 2, Tick: 0, Data: -1, Total: -1},
+		Setup: func() ([]func(), func(*vsched.Exec) *vsched.Violation, func() string) {
+			which := vsched.ChooseFree(len(tabs))
+			tabB := tabs[which]
+			env.FreshAll()
+			location.Reset(conv(tabA))
+			got := make([]string, len(reqs))
+			bodies := []func(){
+				func() {
+					if l := location.Get(reqs[0][0], reqs[0][1], names...); l != nil {
+						got[0] = l.Name
+					}
+				},
+				func() { location.Reset(conv(tabB)) },
+				func() {
+					if l := location.Get(reqs[1][0], reqs[1][1], names...); l != nil {
+						got[1] = l.Name
+					}
+				},
+			}
+			check := func(x *vsched.Exec) *vsched.Violation {
+				if x.Deadlock || x.Livelock || len(x.Panics) > 0 {
+					return nil
+				}
+				for i, rq := range reqs {
+					ok := false
+					for _, tab := range [][]c14Loc{tabA, tabB} {
+						best := c14Best(tab, names, rq[0], rq[1])
+						if best < 0 && got[i] == "" {
+							ok = true
+						}
+						for _, l := range tab {
+							if l.Name == got[i] && c14Match(l, rq[0], rq[1]) && c14Class(l) == best {
+								ok = true
+							}
+						}
+					}
+					if !ok {
+						return &vsched.Violation{Sig: "lookup-during-reload-wrong-for-both-tables", Msg: fmt.Sprintf("request %s %s during a reload from %v to %v was routed to %q, which is the best match neither before nor after the reload", rq[0], rq[1], tabA, tabB, got[i])}
+					}
+				}
+				return nil
+			}
+			return bodies, check, func() string { return fmt.Sprint(which, got) }
+		},
+	}
 }
